@@ -167,3 +167,32 @@ func HarnessC13PagerNest() {
 		vx.Cover("next-empty")
 	}
 }
+
+// HarnessC13PhotoStory: a page with a site logo and k equally ranked photos in
+// front of the article text (k around the sizes where library sorts change
+// algorithm); log flags must not change which image is promoted, nor anything
+// else of the result.
+func HarnessC13PhotoStory() {
+	k := []int{1, 3, 12, 13, 14, 20, 33}[vx.Choose("photos", 7)]
+	var sb strings.Builder
+	sb.WriteString(`<html><head><title>Harbour festival in pictures</title></head><body><div id="top"><div><a href="/"><img src="/static/site-logo.png" alt="Logo"></a></div></div><div id="page"><div id="story"><div>`)
+	for i := 1; i <= k; i++ {
+		sb.WriteString(`<img src="/photos/h-` + string(rune('a'+i/10)) + string(rune('0'+i%10)) + `.jpg" alt="photo">`)
+	}
+	for i := 0; i < 5; i++ {
+		sb.WriteString(`<p>The harbour festival opened on Saturday morning with a parade of old sailing ships, and thousands of visitors walked along the quay to see the crews at work, said the organisers of the event.</p>`)
+	}
+	sb.WriteString(`</div></div></div></body></html>`)
+	page := sb.String()
+	r0, _ := Apply(vx.ParseHTML(page), &Options{})
+	fl := []LogFlag{LogVisibility, LogEverything, LogExtraction | LogTiming, LogVisibility | LogPagination}[vx.Choose("flags", 4)]
+	r1, _ := Apply(vx.ParseHTML(page), &Options{LogFlags: fl})
+	vx.Assert(r0 != nil && r1 != nil, "Apply failed")
+	if r0 == nil || r1 == nil {
+		return
+	}
+	zzSame(r0, r1, "photo story")
+	if len(r0.ContentImages) > 0 {
+		vx.Cover("image")
+	}
+}
